@@ -48,7 +48,7 @@ def compact(rows):
     return [[v for v in r if v is not None] for r in rows]
 
 
-def check_encoding(ctx, mesh, enc, mode, label):
+def check_encoding(ctx, mesh, enc, mode, label, order=()):
     import_emsarray()
     from emsarray.conventions.ugrid import NoEdgeDimensionException
     spec = {"conv": "ugrid", "geom": dict(mesh, enc=enc), "extra": {}, "vars": [], "mode": mode}
@@ -93,6 +93,11 @@ def check_encoding(ctx, mesh, enc, mode, label):
         if not has_edges:
             ctx.label("no_edge_dimension")
             return
+        # Tables are read in a drawn order (deriving one must not disturb another) ...
+        first_read = {}
+        for name in order:
+            ctx.at("C10." + name.replace("_array", ""))
+            first_read[name] = rows_of(getattr(topo, name))
         ctx.check(topo.edge_dimension == d["edge"], "C10.dimension_names",
                   lambda: f"{what}: edge dimension {topo.edge_dimension!r}, the dataset uses {d['edge']!r}")
         supplied = set(enc["supply"])
@@ -150,6 +155,17 @@ def check_encoding(ctx, mesh, enc, mode, label):
                 for o in row:
                     ctx.check(f in got[o], "C10.derived_face_face",
                               lambda: f"{what}: face adjacency is not symmetric: {f}->{o} but not back")
+        # ... and read again at the end: nothing may have changed, neither the normalised
+        # tables nor the variables of the dataset they were read from
+        for name, before in first_read.items():
+            again = rows_of(getattr(topo, name))
+            ctx.check(again == before, "C10.tables_stable",
+                      lambda: f"{what}: {name} changed after other tables were read (order {order}): "
+                      f"{before} -> {again}")
+        fresh = specs.build(spec)
+        for name in ds.variables:
+            ctx.check(ds[name].identical(fresh[name]), "C10.tables_stable",
+                      lambda: f"{what}: reading the topology modified dataset variable {name}")
 
 
 def _enc_summary(enc, mode):
@@ -161,8 +177,8 @@ def _enc_summary(enc, mode):
 
 def check_case(case, ctx):
     mesh = case["mesh"]
-    check_encoding(ctx, mesh, case["enc_a"], case["mode_a"], "A")
-    check_encoding(ctx, mesh, case["enc_b"], case["mode_b"], "B")
+    check_encoding(ctx, mesh, case["enc_a"], case["mode_a"], "A", case.get("order", ()))
+    check_encoding(ctx, mesh, case["enc_b"], case["mode_b"], "B", case.get("order", ())[::-1])
     a, b = case["enc_a"], case["enc_b"]
     differ = sum(1 for k in ("start_index", "fill", "dtype", "transposed", "supply", "coords_as",
                              "edge_dim_attr", "face_dim_attr") if a[k] != b[k])
@@ -221,6 +237,8 @@ def cases(draw):
             enc["fill"] = draw(st.sampled_from(["int", "nan"]))
         out["enc_" + tag] = enc
         out["mode_" + tag] = draw(st.sampled_from(["raw", "raw", "raw", "decoded", "decoded", "netcdf"]))
+    out["order"] = list(draw(st.permutations(
+        ["edge_node_array", "face_edge_array", "edge_face_array", "face_face_array"])))
     return out
 
 
